@@ -202,13 +202,14 @@ Definition b2s_pairs (tw bw bh nblocks : nat) : list (nat * nat) :=
       (seq 0 bsz))
     (seq 0 nblocks).
 
-Fixpoint b2s_loop (data : bytes) (pairs : list (nat * nat)) (out : bytes) : bytes :=
+(* [olen] = sequential.len(), computed once *)
+Fixpoint b2s_loop (data : bytes) (olen : nat) (pairs : list (nat * nat)) (out : bytes) : bytes :=
   match pairs with
   | [] => out
   | (i, o) :: r =>
     match nth_error data i with
-    | Some v => if (o <? length out)%nat then b2s_loop data r (upd o v out) else b2s_loop data r out
-    | None => b2s_loop data r out
+    | Some v => if (o <? olen)%nat then b2s_loop data olen r (upd o v out) else b2s_loop data olen r out
+    | None => b2s_loop data olen r out
     end
   end.
 
@@ -216,7 +217,7 @@ Fixpoint b2s_loop (data : bytes) (pairs : list (nat * nat)) (out : bytes) : byte
 Definition block_to_sequential (data : bytes) (tw th bw bh : N) : bytes :=
   let n := tw * th in
   let nblocks := n / (bw * bh) in
-  b2s_loop data (b2s_pairs (N.to_nat tw) (N.to_nat bw) (N.to_nat bh) (N.to_nat nblocks)) (repeat 0 (N.to_nat n)).
+  b2s_loop data (N.to_nat n) (b2s_pairs (N.to_nat tw) (N.to_nat bw) (N.to_nat bh) (N.to_nat nblocks)) (repeat 0 (N.to_nat n)).
 
 (* crop: `input[base..base+width]` per row; a row outside the input would be a slice panic *)
 Fixpoint crop_rows (input : bytes) (ow w : nat) (rows : nat) : option bytes :=
